@@ -61,6 +61,14 @@ func newNode(newState bool) *node {
 	return &node{bc: blockchain.New(memory.New(), &net, blockchain.WithNewState(newState))}
 }
 
+// newNodeWithListener: the same with juno's own read listener installed (blockchain.WithListener): cb runs at the
+// start of every Blockchain read method, with the method's name.
+func newNodeWithListener(newState bool, cb func(method string)) *node {
+	net := networks.Sepolia
+	return &node{bc: blockchain.New(memory.New(), &net, blockchain.WithNewState(newState),
+		blockchain.WithListener(&blockchain.SelectiveListener{OnReadCb: cb}))}
+}
+
 // finalise appends one block carrying only a state diff and class definitions (no transactions
 // are ever executed; the stub VM would abort).
 func (n *node) finalise(diff *core.StateDiff, classes map[felt.Felt]core.ClassDefinition) error {
